@@ -3,10 +3,13 @@
 package main
 
 import (
+	"encoding/json"
 	"flag"
 	"fmt"
 	"io"
 	"os"
+	"path/filepath"
+	"strings"
 
 	"github.com/getlantern/golog"
 
@@ -14,6 +17,9 @@ import (
 )
 
 var engines = map[string]hk.Engine{}
+
+// ownsReplay lists engines that interpret -replay / -corpus files themselves.
+var ownsReplay = map[string]bool{}
 
 func main() {
 	if len(os.Args) < 2 {
@@ -51,6 +57,56 @@ func main() {
 		}
 		ctx.Model = m
 		defer m.Close()
+	}
+	// replay / corpus: cases are identified by (seed, index[, mode]) — every engine derives a
+	// case deterministically from them — so a replay re-runs exactly that case
+	type caseRef struct {
+		Engine string  `json:"engine"`
+		Mode   string  `json:"mode"`
+		Seed   *uint64 `json:"seed"`
+		Index  *uint64 `json:"index"`
+	}
+	runRef := func(path string) bool {
+		b, err := os.ReadFile(path)
+		if err != nil {
+			return false
+		}
+		var ref caseRef
+		if json.Unmarshal(b, &ref) != nil || ref.Seed == nil || ref.Index == nil {
+			return false
+		}
+		if ref.Engine != "" && ref.Engine != name {
+			return false
+		}
+		if ref.Mode != "" && *mode != "" && ref.Mode != *mode {
+			return false
+		}
+		sub := *ctx
+		sub.Seed, sub.From, sub.N, sub.Replay, sub.Corpus = *ref.Seed, int(*ref.Index), 1, "", ""
+		if ref.Mode != "" {
+			sub.Mode = ref.Mode
+		}
+		if err := eng.Run(&sub); err != nil {
+			res.Note("replay %s: engine error: %v", path, err)
+		}
+		res.Hit("corpus-or-replay-case")
+		return true
+	}
+	if *replay != "" && !ownsReplay[name] {
+		if !runRef(*replay) {
+			fmt.Fprintf(os.Stderr, "replay file %s has no (seed, index) for engine %s\n", *replay, name)
+			os.Exit(64)
+		}
+		res.Finish(*out)
+		return
+	}
+	if *corpus != "" && !ownsReplay[name] {
+		entries, _ := os.ReadDir(*corpus)
+		for _, e := range entries {
+			if !e.IsDir() && strings.HasSuffix(e.Name(), ".json") {
+				runRef(filepath.Join(*corpus, e.Name()))
+			}
+		}
 	}
 	if err := eng.Run(ctx); err != nil {
 		fmt.Fprintf(os.Stderr, "engine error: %v\n", err)
